@@ -102,6 +102,12 @@ func c05Inputs(n int, seed uint64) []string {
 		"<a onclick\x00=x hrefabcdef\x00=y>", "<scriptlowercase\x00 x>", "x' onmouseover\x00\x00=alert(1) ", "<a href=\"javascript\x00:alert(1)\">", "<a style\x00=x>", "select lower\x00case from t -- sp_password\x00", "union\x00 select\x00 1", "1 /*comment\x00 lowercase*/ union select 1"} {
 		add(x)
 	}
+	// path, bracket and inline-image syntax next to inputs whose answer hinges
+	// on the same lexer tables
+	for _, x := range []string{"$.a[0]", "$.items[0].name", "select $.a[1] from t", "1 union select[password]from[users]", "1;drop table[users]", "' union select[a],[b] from[t]--", "a[0]", "[a]", "x[1].y[2]",
+		"<img src=\"data:image/png;base64,iVBORw0KGgo\">", "<a href=\"data:text/html;base64,PHNj\">", "<img src=\"data:image/svg+xml;utf8,x\">", "<form action=data:x>", "<a onmspointerdown=x>", "<body onoffline=x>", "<a onmozfullscreenchange=x>", "<a ononline=x>", "<a onopen=x>"} {
+		add(x)
+	}
 	// inputs that are positive in more than one reading, with different
 	// fingerprints, short and beyond the sizes at which work might be split
 	// up: the answer must be the first reading's, every time
